@@ -87,7 +87,7 @@ for nm, prm in {
     CURVES[nm] = ("A", prm)
 
 ERRORS = [1e-4, 1e-6]
-VARIANTS = ["direct", "R30", "R90", "MX", "SWAP", "NSWAP", "T", "R17MT", "S2", "Shalf", "Sm3", "reverse", "copy"]
+VARIANTS = ["direct", "R30", "R90", "MX", "SWAP", "NSWAP", "T", "R17MT", "S2", "Shalf", "Sm3", "reverse", "copy", "MX-str", "R17MT-str"]
 R17MT = af.mul(af.translate(5.0, -7.0), af.mul(af.scale(-1.0, 1.0), af.rotate(math.radians(17))))
 # SWAP / NSWAP: the reflections in y = x and y = -x, the isometries of negative determinant with a = d = 0
 VM = {"R30": MATS["R30"], "R90": MATS["R90"], "MX": MATS["MX"], "SWAP": MATS["SWAP"], "NSWAP": (0.0, -1.0, -1.0, 0.0, 2.0, 1.0),
@@ -146,7 +146,10 @@ class Segments(SubCheck):
             try:
                 s2, _ = make(svg, name, mag)
                 scale = 1.0
-                if v in VM:
+                if v.endswith("-str"):
+                    # the same map given as transform text (the operators accept a string wherever a Matrix goes)
+                    s2 = s2 * ("matrix(%s)" % ",".join(repr(float(x)) for x in VM[v[:-4]]))
+                elif v in VM:
                     s2 = s2 * svg.Matrix(*VM[v])
                     scale = VS.get(v, 1.0)
                 elif v == "reverse":
